@@ -1092,6 +1092,9 @@ class Proto:
                 return done(x, ('runres',))
             return done(x, None)
 
+        if name in ('std::thread::functions::park', 'std::thread::functions::park_timeout') and record:
+            # what the owner last saw of its queue when it goes to sleep
+            self.events[('park', self._evn(fn), '')].add((st.T, st.P))
         # the crate's own vocabulary on the state
         if name == QS + '::is_running':
             e = fn.expr_of_operand(args[0])
@@ -1103,7 +1106,8 @@ class Proto:
             return done(st, None)
         if name == 'core::cmp::PartialEq::eq' or name == 'core::cmp::PartialEq::ne':
             neg = name.endswith('::ne')
-            res = t.get('resolved', '')
+            # `ne` is a provided method: it resolves to the generic default, so look at the operand type as well
+            res = (t.get('resolved') or '') + ' ' + clean_ty(t.get('self_ty') or '') + ' ' + (clean_ty(args[0]['pl']['ty']) if args and args[0]['k'] != 'const' else '')
             val = None
             if QS in res:
                 ea, eb = fn.expr_of_operand(args[0]), fn.expr_of_operand(args[1])
